@@ -1407,11 +1407,25 @@ func genCase(r *c.Rng) *Case {
 	return k
 }
 
+// manyAdmins: a database with exactly n administrators (all of provisioner n0), then a rename of that
+// provisioner and what follows: reindexAdmins pages through the administrators 100 at a time
+func manyAdmins(n int) *Case {
+	k := &Case{Ops: []Op{{K: "ip", A: []string{"n0"}}, {K: "ip", A: []string{"n1"}}, {K: "ia", A: []string{"step", "@0"}, B: true}}}
+	for i := 1; i < n; i++ {
+		k.Ops = append(k.Ops, Op{K: "ia", A: []string{fmt.Sprintf("u%03d", i), "@0"}, B: i%50 == 0})
+	}
+	k.Ops = append(k.Ops, Op{K: "boot"}, Op{K: "up", A: []string{"@0", "n2"}}, Op{K: "la", N: 100}, Op{K: "ra", A: []string{"@7"}}, Op{K: "up", A: []string{"@0", "n3"}},
+		Op{K: "sa", A: []string{"s1", "n3"}, B: false}, Op{K: "up", A: []string{"@0", "n0"}}, Op{K: "rs"})
+	return k
+}
+
 func corner() []*Case {
 	boot := []Op{{K: "ip", A: []string{"n0"}}, {K: "ip", A: []string{"n1"}}, {K: "ia", A: []string{"step", "@0"}, B: true},
 		{K: "ia", A: []string{"s1", "@1"}, B: true}, {K: "boot"}}
 	with := func(ops ...Op) *Case { return &Case{Ops: append(append([]Op{}, boot...), ops...)} }
 	return []*Case{
+		// exactly one full page of administrators (100), one more, two full pages: the rename must re-index all of them
+		manyAdmins(100), manyAdmins(101), manyAdmins(200),
 		// D2: demote one super admin, delete the other
 		with(Op{K: "ua", A: []string{"@0"}, B: false}, Op{K: "ra", A: []string{"@1"}}, Op{K: "rs"}),
 		// D3
